@@ -1,6 +1,7 @@
 package c07
 
 import (
+	"errors"
 	"fmt"
 	"os"
 	"path/filepath"
@@ -216,6 +217,12 @@ func (g *gen) form(c ctx, d int) r.Val {
 		sv := fmt.Sprintf("*s%d*", g.nstream)
 		path := filepath.Join(g.dir, fmt.Sprintf("f%d.txt", g.nstream))
 		spec := r.L(sym("s"), r.Str(path), sym(":direction"), sym(":output"), sym(":if-exists"), sym(":supersede"), sym(":if-does-not-exist"), sym(":create"))
+		switch g.pick("direction", 3) {
+		case 1: // a file that exists, opened for input
+			spec = r.L(sym("s"), r.Str(filepath.Join(g.dir, "input.txt")), sym(":direction"), sym(":input"))
+		case 2: // the default direction (input)
+			spec = r.L(sym("s"), r.Str(filepath.Join(g.dir, "input.txt")))
+		}
 		return list("with-open-file", append([]r.Val{spec, list("setq", sym(sv), sym("s"))}, g.body(c.with("with-open-file"), d+1)...)...)
 	case 9:
 		return list("ignore-errors", g.body(c.with("ignore-errors"), d+1)...)
@@ -314,6 +321,7 @@ func scratchDir() string {
 		}
 		scratch = filepath.Join(base, "c07files")
 		_ = os.MkdirAll(scratch, 0o755)
+		_ = os.WriteFile(filepath.Join(scratch, "input.txt"), []byte("(1 2 3) text\n"), 0o644)
 	})
 	return scratch
 }
@@ -465,6 +473,13 @@ func run(c Case) *h.Result {
 				open := ev.Eval(scope, "(open-stream-p probe-stream)")
 				if open.Kind != ev.Value || open.Val != nil {
 					return fmt.Sprintf("program%s:\n%s\n  stream *s%d* opened by with-open-file is still open afterwards: %s", how, c.Prog, i, open)
+				}
+				// asked of the operating system as well (open-stream-p probes a file stream by writing nothing to it,
+				// which fails on a descriptor opened for input whether it is closed or not)
+				if fs, isFile := so.(*slip.FileStream); isFile {
+					if _, err := (*os.File)(fs).Stat(); err == nil || !errors.Is(err, os.ErrClosed) {
+						return fmt.Sprintf("program%s:\n%s\n  the file of stream *s%d* opened by with-open-file is still open afterwards (stat: %v)", how, c.Prog, i, err)
+					}
 				}
 			}
 		}
